@@ -196,7 +196,7 @@ fn layer1(ctx: &WorkerCtx, rep: &mut WorkerReport, base: u64, max_states: usize)
             t.path.push(format!("{}@{}", name, t.cur));
             succ.push(t);
         }
-        for adv in [1u64, 10, 11] {
+        for adv in [1u64, 9, 10, 11] {
             let mut t = s.clone();
             t.cur += adv;
             t.m = t.m.max(t.cur);
@@ -578,7 +578,7 @@ pub fn worker(ctx: &WorkerCtx) -> WorkerReport {
     if ctx.shard as usize == bases.len() {
         deep_rollback_after_purge(ctx, &mut rep);
     }
-    let (seqs, steps) = if ctx.thorough() { (120, 400) } else { (12, 250) };
+    let (seqs, steps) = if ctx.thorough() { (160, 400) } else { (48, 300) };
     for i in 0..seqs {
         let cs = rng.next();
         match i % 4 {
